@@ -85,6 +85,34 @@ def main():
                     n += 1
             lines += [ck.rng.choice(["LOADBN", "LOADBN NONORMS", "DUMP"]), "SOLVE " + ck.rng.choice(["DUAL", "PRIMAL", "DUAL", "EXACT D"]), "ACCESS", "GETBASIS", "DUMP"]
             cases.append((cid, "\n".join(lines) + "\n"))
+        # problems read from a file carry the row-wise copy of the matrix (built by the readers only): delete columns that
+        # occur in no row / in rows, change right-hand sides, re-solve warm on the problem itself (scaling off or a kept basis)
+        for ri in range(60 if ck.thorough() else 14):
+            nc, nr = ck.rng.randint(3, 7), ck.rng.randint(3, 6)
+            empt = sorted(ck.rng.sample(range(nc), ck.rng.randint(1, 2)))
+            obj = " ".join("+ %d v%d" % (ck.rng.randint(1, 5), j) for j in range(nc))
+            rows = []
+            for i in range(nr):
+                ent = [(j, ck.rng.randint(1, 4)) for j in range(nc) if j not in empt and ck.rng.random() < 0.7] or [(([j for j in range(nc) if j not in empt] or [0])[0], 1)]
+                rows.append(" r%d: %s <= %d" % (i, " ".join("+ %d v%d" % (v, j) for j, v in ent), ck.rng.randint(5, 30)))
+            txt = "Maximize\n obj: %s\nSubject To\n%s\nBounds\n%s\nEnd\n" % (obj, "\n".join(rows), "\n".join(" v%d <= %d" % (j, ck.rng.randint(2, 9)) for j in range(nc)))
+            cid = "rd%d" % ri
+            lines = ["CASE %s" % cid, mkfile("%s.lp" % cid, txt).rstrip("\n"), "READPROB %s.lp LP" % cid, "PARAM 7 %d" % ck.rng.choice([0, 0, 1]), "SOLVE " + ck.rng.choice(["DUAL", "PRIMAL", "EXACT D"]), "ACCESS"]
+            dels = list(empt) if ck.rng.random() < 0.7 else [ck.rng.randrange(nc)]
+            for d in sorted(dels, reverse=True):
+                lines.append("CHG delcol %d" % d)
+            for _ in range(ck.rng.randint(1, 8)):
+                lines.append("CHG rhs %d %d" % (ck.rng.randrange(nr), ck.rng.randint(3, 40)))
+            lines += ["SOLVE DUAL", "ACCESS", "CHG delrow 0", "SOLVE " + ck.rng.choice(["DUAL", "PRIMAL"]), "ACCESS", "DUMP"]
+            cases.append((cid, "\n".join(lines) + "\n"))
+        # very long names / long numbers through every writer (lines of about 4096 characters and more)
+        lens = list(range(4080, 4110)) if ck.thorough() else [4087, 4088, 4089, 4094, 4095, 4096, 4097, 4103, 4104]
+        for L in lens:
+            for half in (False, True):
+                nm = "n" * (L // 2 if half else L)
+                cid = "ln%d%s" % (L, "h" if half else "")
+                cases.append((cid, "CASE %s\nLP l MAX 2 2\nCOL %sx 1 0 5\nCOL y 1 0 inf\nROW %sr L 5 0 2 0 1 1 1\nROW c2 L 7/3 0 1 1 1\nSOLVE EXACT D\nACCESS\n"
+                                   "WRITEBAS b.bas\nREADBAS b.bas\nPRINTSOL s.sol\nWRITEPROB w.lp LP\nWRITEPROB w.mps MPS\nREADPROB w.mps MPS\nSOLVE EXACT P\nACCESS\n" % (cid, nm, nm)))
         scripts = dict(cases)
         # ---- 1. sanitizer run -------------------------------------------------------------------
         M, outs, crashes = run_cases("h_solve", cases, asan=True, per_case_timeout=120, env={"QSX_SCRATCH": tmp})
